@@ -26,7 +26,7 @@ func runGentest(args []string) int {
 	if kind == "rolesc11" {
 		cnt := map[string]int{}
 		for i := 0; i < n; i++ {
-			p := genOwnProgramOpt(prng.Stream(seed, "c11", "gen", i), i, true, i%2 == 0)
+			p := genOwnProgramFull(prng.Stream(seed, "c11", "gen", i), i, true, i%2 == 0, i%3 == 0)
 			for _, r := range p.Roles {
 				cnt[r]++
 			}
@@ -61,6 +61,9 @@ func runGentest(args []string) int {
 			texts = append(texts, string(p.Files[p.Root]))
 		case "alias":
 			as := genAliasSet(prng.Stream(seed, "c20", "aliasset", i))
+			if i%3 == 2 {
+				as = genAliasSetMixed(prng.Stream(seed, "c20", "aliasset", i))
+			}
 			jobs = append(jobs, fwproto.Job{ID: i, Tree: as.Tree, Root: as.Root, Source: true})
 			t := as.Desc + "\n"
 			for _, f := range as.Tree.SortedFiles() {
